@@ -20,7 +20,9 @@ using namespace c12;
 struct KnownDefect { const char* id; const char* kinds; std::string witnessTree; const char* witnessCfg; };
 static const char* DTD_TOKEN2 = "<!DOCTYPE a [<!ELEMENT a ANY><!ENTITY e 'v'><!ENTITY f '&#60;&#38;'><!NOTATION n SYSTEM 'n'><!ENTITY u SYSTEM 'u' NDATA n><!-- c --><?p q?>]>";
 static const KnownDefect KNOWN_DEFECTS[] = {
-    {"redundant-empty-default-namespace-redeclared", "reparsed-tree-differs", "parsed(entities expanded): <a xmlns='ud'><b xmlns=''><c/></b></a>", "write/UTF-8/1.0/decl/split/discard/nobom"},
+    {"namespace-fixup-prefix-conflict", "output-not-wellformed-expat output-not-wellformed-xerces reparsed-tree-differs", "base=empty document ; steps: E(q:a) A(q:y{uz}=x)",
+     "write/UTF-8/1.0/decl/split/discard/nobom"},
+    {"empty-default-namespace-binding-ignored", "reparsed-tree-differs", "parsed(entities expanded): <a xmlns='ud'><b xmlns=''><c/></b></a>", "write/UTF-8/1.0/decl/split/discard/nobom"},
     {"internal-subset-entity-value-not-escaped", "output-not-wellformed-expat output-not-wellformed-xerces", std::string("parsed(entities expanded): ") + DTD_TOKEN2 + "<a/>",
      "write/UTF-8/1.0/decl/split/discard/nobom"},
     {"comment-double-hyphen-emitted", "illformed-content-emitted-silently", "<a> with Comment data=-- [data case 74]", "write/UTF-8/1.0/decl/split/discard/nobom"},
@@ -63,6 +65,7 @@ static void init_cfgs(const std::string& mode) {
                         int flips = (!c.xmldecl) + (!c.split) + (!c.discard) + (c.bom);
                         if (flips > 1) continue;
                     }
+                    if (mode == "defaults" && !(c.xmldecl && c.split && c.discard && !c.bom)) continue;
                     CFGS.push_back(c);
                 }
         }
@@ -234,7 +237,8 @@ static void nf_node(DOMNode* n, const NFOpts& o, std::vector<NFItem>& out) {
     }
     case DOMNode::DOCUMENT_TYPE_NODE: {
         DOMDocumentType* dt = (DOMDocumentType*)n;
-        add("DT|" + esc16(dt->getName()) + "|" + esc16(dt->getPublicId()) + "|" + esc16(dt->getSystemId()) + "|" + esc16(dt->getInternalSubset()));
+        auto ne = [&](const XMLCh* x) { return o.exact || (x && *x) ? esc16(x) : std::string(""); };   // absent and empty identifiers are written (and read back) alike
+        add("DT|" + esc16(dt->getName()) + "|" + ne(dt->getPublicId()) + "|" + ne(dt->getSystemId()) + "|" + ne(dt->getInternalSubset()));
         break;
     }
     case DOMNode::ELEMENT_NODE: {
@@ -262,8 +266,10 @@ static void nf_node(DOMNode* n, const NFOpts& o, std::vector<NFItem>& out) {
         add("PI|" + esc16(n->getNodeName()) + "|" + (o.exact ? esc16(n->getNodeValue()) : e16(pi_norm(u16(n->getNodeValue()), o.v11))));
         break;
     case DOMNode::ENTITY_REFERENCE_NODE:
+        // documented: "Child nodes (the expansion) of the entity reference are ignored" - the expansion of the re-parsed
+        // reference comes from the declaration, so only the reference itself is compared (exact mode: everything)
         add("RS|" + esc16(n->getNodeName()));
-        nf_children(n, o, out);
+        if (o.exact) nf_children(n, o, out);
         add("RE");
         break;
     default: add("?|" + std::to_string((int)n->getNodeType()));
@@ -356,6 +362,7 @@ struct Expect {
     bool undeclaredER = false;   // reference to an entity the document does not declare: documented to be written as &name; regardless
     bool has11only = false;      // contains characters whose treatment differs between XML 1.0 and 1.1 (C0/C1 controls, NEL, LSEP)
     int unrepData = 0;           // number of Text/attribute/CDATA(split) data strings containing a character the encoding cannot represent
+    bool hasER = false;          // tree holds EntityReference nodes (their expansion is not serialized: expat content comparison not applicable)
     bool lossy = false;          // contains detail XML cannot express (empty Text node, literal CR/NEL in comment/PI/CDATA, leading white space of PI data)
     std::set<std::string> kd;    // known-defect predicates that hold for this (tree, configuration)
     void fail(const std::string& w) { if (verdict < MUST_FAIL) { verdict = MUST_FAIL; why = w; } }
@@ -407,8 +414,28 @@ static void expect_walk(DOMNode* n, const Cfg& c, Expect& e) {
     case DOMNode::ELEMENT_NODE: {
         expect_name(u16(n->getNodeName()), cc, e, "element-name");
         DOMNamedNodeMap* am = n->getAttributes();
-        if (DOMNode* xa = am->getNamedItem(XMLUni::fgXMLNSString))
-            if (!*xa->getNodeValue() && n->getFirstChild()) e.kd.insert("redundant-empty-default-namespace-redeclared");
+        {   // known defect: one prefix needed for two namespaces on the same element
+            std::map<U16, U16> need;
+            auto want = [&](DOMNode* x) {
+                const XMLCh* pf = x->getPrefix(); const XMLCh* ns = x->getNamespaceURI();
+                if (!pf || !*pf || !ns || XMLString::equals(ns, XMLUni::fgXMLNSURIName) || XMLString::equals(ns, XMLUni::fgXMLURIName)) return;
+                auto it = need.find(u16(pf));
+                if (it == need.end()) need[u16(pf)] = u16(ns);
+                else if (it->second != u16(ns)) e.kd.insert("namespace-fixup-prefix-conflict");
+            };
+            want(n);
+            for (XMLSize_t i = 0; i < am->getLength(); i++) want(am->item(i));
+        }
+        {   // known defect: an unprefixed no-namespace element (needs xmlns="") below a non-empty default namespace, with element children
+            const XMLCh* pf = n->getPrefix(); const XMLCh* ns = n->getNamespaceURI();
+            bool plain = (!pf || !*pf) && (!ns || !*ns), kid = false, outer = false;
+            for (DOMNode* k = n->getFirstChild(); k; k = k->getNextSibling()) if (k->getNodeType() == DOMNode::ELEMENT_NODE) kid = true;
+            for (DOMNode* a = n->getParentNode(); a && a->getNodeType() == DOMNode::ELEMENT_NODE; a = a->getParentNode()) {
+                const XMLCh* apf = a->getPrefix(); const XMLCh* ans = a->getNamespaceURI();
+                if ((!apf || !*apf) && ans && *ans) outer = true;
+            }
+            if (plain && kid && outer) e.kd.insert("empty-default-namespace-binding-ignored");
+        }
         for (XMLSize_t i = 0; i < am->getLength(); i++) {
             DOMAttr* a = (DOMAttr*)am->item(i);
             if (c.discard && !a->getSpecified()) continue;
@@ -419,7 +446,7 @@ static void expect_walk(DOMNode* n, const Cfg& c, Expect& e) {
             if (!refOk(v, c.v11)) e.fail("attr-value-illegal-char");
             else if (!g_icu.repAll(enc, v)) e.unrepData++;
             for (DOMNode* k = a->getFirstChild(); k; k = k->getNextSibling())
-                if (k->getNodeType() == DOMNode::ENTITY_REFERENCE_NODE && !entity_declared(k)) e.undeclaredER = true;
+                if (k->getNodeType() == DOMNode::ENTITY_REFERENCE_NODE) { e.hasER = true; if (!entity_declared(k)) e.undeclaredER = true; }
         }
         break;
     }
@@ -474,6 +501,7 @@ static void expect_walk(DOMNode* n, const Cfg& c, Expect& e) {
     }
     case DOMNode::ENTITY_REFERENCE_NODE:
         expect_name(u16(n->getNodeName()), cc, e, "entity-name");
+        e.hasER = true;
         if (!entity_declared(n)) e.undeclaredER = true;
         return;  // children (the expansion) are documented to be ignored
     default: return;
@@ -588,7 +616,9 @@ static void check_tree(DOMDocument* doc, const TreeOpts& to, Ctx& c) {
                 if (!wf) { report("output-not-wellformed-expat", detail("\"expat_error\":" + jstr(err) + ",\"text\":" + jstr(show(text.substr(0, 200))))); continue; }
                 Dump dd; flat_dom(doc, dd, cfg.v11); dd.flush();
                 std::vector<std::string> a = no_empty_text(dd.lines), b = no_empty_text(ef.d.lines);
-                if (a != b) {
+                if (ex.hasER) c.count("expat_content_not_compared_entity_references");
+                else c.count("expat_content_compared");
+                if (!ex.hasER && a != b) {
                     size_t i = 0; while (i < a.size() && i < b.size() && a[i] == b[i]) i++;
                     report("content-differs-expat", detail("\"expected\":" + jstr(i < a.size() ? a[i] : "<end>") + ",\"observed\":" + jstr(i < b.size() ? b[i] : "<end>") +
                                                                ",\"text\":" + jstr(show(text.substr(0, 200)))));
@@ -618,7 +648,7 @@ static void check_tree(DOMDocument* doc, const TreeOpts& to, Ctx& c) {
             c.count("roundtrip_equal");
             if (loose) c.count("roundtrip_equal_modulo_cdata_split");
             // isEqualNode must agree whenever no normalisation at all was needed
-            NFOpts xo; xo.exact = true;
+            NFOpts xo; xo.exact = true; xo.standalone = false;   // (isEqualNode does not look at the standalone flag)
             std::vector<NFItem> ea, eb;
             nf_node(doc, xo, ea); nf_node(re, xo, eb);
             bool exactEq = nf_join(ea) == nf_join(eb);
@@ -695,17 +725,21 @@ static int g_steps = 3;
 static const char* ELN[] = {"a", "p:a+decl", "q:a", "a{ud}", "\\u00E9", "p:b"};
 static const char* ATN[] = {"x", "p:x", "q:x", "q:y{uz}"};
 static void init_steps(const std::string& dset) {
-    DS.push_back(u16("x"));
-    U16 m = u16("&<\r"); DS.push_back(m);
-    if (dset != "small") {
+    bool mini = dset == "mini";
+    if (!mini) {
+        DS.push_back(u16("x"));
+        DS.push_back(u16("&<\r"));
         U16 n; n += (char16_t)0xE9; n += (char16_t)0x20AC; DS.push_back(n);
         DS.push_back(u16("]]>"));
-    } else { U16 n; n += (char16_t)0x20AC; n += u16("]]>"); DS.push_back(n); }
+    } else {
+        DS.push_back(u16("x<"));
+        U16 n; n += (char16_t)0x20AC; n += u16("\r]]>"); DS.push_back(n);
+    }
     auto S = [&](int k, int a, int b, const std::string& nm) { STEPS.push_back(Step{k, a, b, nm}); };
-    for (int i = 0; i < 4; i++) S(K_DT, i, 0, std::string("DT") + std::to_string(i));
-    for (int i = 0; i < 6; i++) S(K_E, i, 0, std::string("E(") + ELN[i] + ")");
+    for (int i = 0; i < 4; i++) if (!mini || i == 0 || i == 2) S(K_DT, i, 0, std::string("DT") + std::to_string(i));
+    for (int i = 0; i < 6; i++) if (!mini || i < 4) S(K_E, i, 0, std::string("E(") + ELN[i] + ")");
     S(K_UP, 0, 0, "UP");
-    for (int i = 0; i < 4; i++) for (size_t d = 0; d < DS.size(); d++) S(K_A, i, (int)d, std::string("A(") + ATN[i] + "=" + show(DS[d]) + ")");
+    for (int i = 0; i < 4; i++) if (!mini || i != 1) for (size_t d = 0; d < DS.size(); d++) S(K_A, i, (int)d, std::string("A(") + ATN[i] + "=" + show(DS[d]) + ")");
     for (size_t d = 0; d < DS.size(); d++) S(K_T, 0, (int)d, "T(" + show(DS[d]) + ")");
     for (size_t d = 0; d < DS.size(); d++) S(K_CD, 0, (int)d, "CD(" + show(DS[d]) + ")");
     for (size_t d = 0; d < DS.size(); d++) S(K_C, 0, (int)d, "C(" + show(DS[d]) + ")");
@@ -948,6 +982,33 @@ static void run_fmt(uint64_t idx, Ctx& c) {
     }
 }
 
+// =========================================================================================== space "params": the documented parameter names
+// DOMLSSerializer.hpp lists the parameters a DOMLSSerializer recognises and which values are [required].  One case per
+// documented (name, value): the name given as the *documented string* must be accepted by canSetParameter/setParameter.
+struct ParamCase { const char* name; bool value; };
+static const ParamCase PARAMS[] = {
+    {"xml-declaration", true}, {"xml-declaration", false}, {"split-cdata-sections", true}, {"split-cdata-sections", false},
+    {"discard-default-content", true}, {"discard-default-content", false}, {"format-pretty-print", false}, {"normalize-characters", false},
+    {"canonical-form", false}, {"http://apache.org/xml/features/dom/byte-order-mark", true}, {"http://apache.org/xml/features/dom/byte-order-mark", false},
+};
+static void run_params(uint64_t idx, Ctx& c) {
+    const ParamCase& pc = PARAMS[idx];
+    DOMLSSerializer* ser = g_impl->createLSSerializer();
+    struct R { DOMLSSerializer* s; ~R() { s->release(); } } rel{ser};
+    DOMConfiguration* dc = ser->getDomConfig();
+    bool can = dc->canSetParameter(X16(pc.name).p(), pc.value);
+    std::string exc;
+    try { dc->setParameter(X16(pc.name).p(), pc.value); } catch (const DOMException& e) { exc = "DOMException:" + std::to_string((int)e.code); }
+    c.count("parameters_probed");
+    if (can && exc.empty()) { c.count("parameter_accepted"); return; }
+    std::string det = "\"parameter\":" + jstr(pc.name) + ",\"value\":" + (pc.value ? "true" : "false") + ",\"canSetParameter\":" + (can ? "true" : "false") + ",\"setParameter\":" + jstr(exc);
+    if (g_known && std::string(pc.name) == "discard-default-content") {
+        if (pc.value) c.violation("defect:discard-default-content-name-misspelled", det); else c.count("known_defect:discard-default-content-name-misspelled");
+        return;
+    }
+    c.violation("documented-parameter-not-recognised", det);
+}
+
 // =========================================================================================== main
 int main(int argc, char** argv) {
     Args a(argc, argv);
@@ -982,6 +1043,10 @@ int main(int argc, char** argv) {
         R.fn = run_data;
         R.describe = [](uint64_t i) { return "{\"tree\":" + jstr(data_label(i)) + "}"; };
         extra += ",\"alphabet\":" + std::to_string(SYM.size()) + ",\"k\":" + std::to_string(g_k);
+    } else if (space == "params") {
+        R.total = sizeof(PARAMS) / sizeof(PARAMS[0]);
+        R.fn = run_params;
+        R.describe = [](uint64_t i) { return "{\"parameter\":" + jstr(PARAMS[i].name) + "}"; };
     } else if (space == "fmt") {
         init_fch();
         R.total = (uint64_t)NENC * 2 * 4 * 3;
